@@ -3,7 +3,7 @@
    Proofs/ExecLTSConserve.v.  A schedule is any path of the LTS: it interleaves the step tasks
    (whose service calls may take arbitrarily long) with the collector. *)
 From Coq Require Import List Arith Bool Permutation.
-From GW Require Import Gw.ExecLTS Gw.ExecCheck Proofs.ExecLTSProofs Proofs.ExecLTSConserve.
+From GW Require Import Gw.ExecLTS Gw.ExecCheck Proofs.ExecLTSProofs Proofs.ExecLTSConserve Proofs.ExecLTSOrder.
 Import ListNotations.
 
 (* Whatever the schedule, when Execute returns it has stitched the same results and recorded the
@@ -31,15 +31,19 @@ Proof.
 Qed.
 Print Assumptions C05_single_writer.
 
-(* The full statement, kept visible.  Proved above: the set of stitched results and the error
-   multiset are schedule independent.  Not proved in Coq: that the *order* of stitching is always
-   parent-before-child (checked on every observed trace by the correspondence run, oracle
-   c05_order) and that stitching results at unrelated paths commutes, which together give equal
-   response data; data races are a property of the Go runtime (checked with -race in the thorough
-   tier). *)
-Definition C05_statement_order : Prop := forall rcap roots s p c,
-  0 < rcap -> NoDup (idsl roots) -> reach rcap roots s -> In (p, c) (flat_map edges roots) ->
+(* The order of stitching: on every schedule, a step's result is stitched before the results of the
+   steps that depend on it (a dependent is spawned only after its parent's result entered the FIFO
+   result channel, and the single collector stitches in channel order).  Node ids are distinct. *)
+Theorem C05_parent_stitched_before_child : forall rcap roots s p c,
+  NoDup (idsl roots) -> reach rcap roots s -> In (p, c) (flat_map edges roots) ->
   In c (ins s) -> exists l1 l2, ins s = l1 ++ p :: l2 /\ In c l2.
+Proof. intros rcap roots s p c Hnd Hr He Hc. exact (parent_stitched_first rcap roots Hnd s p c Hr He Hc). Qed.
+Print Assumptions C05_parent_stitched_before_child.
+
+(* ... and stitching at points that part ways commutes as far as any reader can tell: an insert
+   changes no point diverging from its own (C01_nothing_else_touched / Proofs.PointsProofs.insert_frame),
+   so results that are not ancestor and descendant may be stitched in either order.  What remains
+   outside the proof: data races, a property of the Go runtime (-race in the thorough tier). *)
 
 Example C05_nonvacuous :
   let t := [Node 0 false [Node 1 false [Node 3 true []]; Node 2 true []]; Node 4 false []] in
